@@ -11,7 +11,7 @@ use topo::TopoSort;
 const N: u8 = 3;
 
 #[derive(Clone, Copy, Debug)]
-enum Op { Insert(u8), Dep(u8, u8), Remove(u8) }
+enum Op { Insert(u8), Dep(u8, u8), Deps(u8, u8, u8), Remove(u8) }
 
 #[derive(Clone, Default)]
 struct Model { pending: BTreeSet<u8>, waits: BTreeSet<(u8, u8)> }
@@ -23,6 +23,7 @@ impl Model {
         match op {
             Op::Insert(x) => self.ok(x),
             Op::Dep(p, c) => self.ok(p) && self.ok(c),
+            Op::Deps(p, c1, c2) => self.ok(p) && self.ok(c1) && self.ok(c2),
             Op::Remove(_) => true,
         }
     }
@@ -30,6 +31,8 @@ impl Model {
         match op {
             Op::Insert(x) => { self.pending.insert(x); }
             Op::Dep(p, c) => { self.pending.insert(p); self.pending.insert(c); self.waits.insert((p, c)); }
+            // insert_deps(p, [c1, c2]) = the two single registrations
+            Op::Deps(p, c1, c2) => { self.apply(Op::Dep(p, c1)); self.apply(Op::Dep(p, c2)); }
             Op::Remove(c) => { self.pending.remove(&c); self.waits.retain(|&(_, cc)| cc != c); }
         }
     }
@@ -42,6 +45,7 @@ fn apply_real(t: &mut TopoSort<u8>, op: Op) {
     match op {
         Op::Insert(x) => { t.insert(x); }
         Op::Dep(p, c) => { t.insert_dep(p, c); }
+        Op::Deps(p, c1, c2) => { t.insert_deps(p, [c1, c2]); }
         Op::Remove(c) => { t.remove(&c); }
     }
 }
@@ -89,6 +93,7 @@ fn main() {
     let mut ops = Vec::new();
     for x in 0..N { ops.push(Op::Insert(x)); ops.push(Op::Remove(x)); }
     for p in 0..N { for c in 0..N { if p != c { ops.push(Op::Dep(p, c)); } } }
+    for p in 0..N { for c1 in 0..N { for c2 in 0..N { if p != c1 && p != c2 { ops.push(Op::Deps(p, c1, c2)); } } } }
     std::panic::set_hook(Box::new(|_| {}));
     let mut count = 0u64;
     let r = dfs(&TopoSort::new(), &Model::default(), &mut Vec::new(), depth, &ops, &mut count);
